@@ -111,3 +111,31 @@ func init() {
 	m.ExhaustivePart = "all sequences of <= 4 calls over {Load, Store(0|1|2), Swap(0|1), CAS(0,1), CAS(1,0), CAS(1,2), CAS(2,2), CAS(0,0)} on a fresh AtomicValue of each of 3 representations (sequential)"
 	metas["C18"] = m
 }
+
+// round 11
+func init() {
+	for prop, text := range map[string]string{
+		"C01": "observers in rotating order (each of Len/SliceInOrder/SlicePreOrder/SlicePostOrder is the first to look in a quarter of the observations); a quarter of the swept histories observed only at their end",
+		"C02": "the tree related by Clone that is NOT continued on is kept and re-checked (same listing, balanced) after mutations of the other one",
+		"C03": "sets of 90..300 members; counted removal streaks (one new member, then exactly 63..66/127..129/255..257 successful Removes of others, no observation in between)",
+		"C04": "seq: Map[any,int] against map[any]int in four layouts (nil interface and mixed dynamic key types, unhashable keys must panic and leave the Map usable, early-stopped Range followed by mutex-taking calls; a parked call is a verdict)",
+		"C05": "1 free round in 12 on a set that also holds 200..3000 bystander values nobody names",
+		"C07": "out-of-range positions that are in range modulo 2^8, 2^16, 2^31, 2^32, 2^62, 2^63",
+		"C08": "jagged rows with sentinel-filled spare capacity; string cells that are empty or end in a space",
+		"C09": "free: interface-typed keys incl. the nil interface; failed TryRLockKey followed by a never-seen key's first writer; 3 000 goroutines on one key",
+		"C10": "sweep with empty batches, on its own goroutine (a parked call is a verdict); parent changes between WithOnly and the publish",
+		"C11": "a different Bimap changed inside a Range callback; nested calls in observers chosen per history",
+		"C12": "interface element types with nil values; Fill/Repeat with every type's zero value",
+		"C13": "elements of 3, 10, 12 and 24 bytes, strings, slices, interface values; nested calls at each of the first six callbacks",
+		"C14": "a garbage collection before kept results are compared",
+		"C15": "Func sorts over element types without ==",
+		"C16": "Queue[error]/Stack[any] with nil values; a garbage collection mid-history",
+		"C17": "sub-word result types; callers created 2^24 goroutines after the invoker (one case per run); the crowd is released from inside the action",
+		"C18": "exact-value checks (+0.0/-0.0, values stored twice, uncomparable struct fields); same-value rounds (only the value 1 is ever written: every CompareAndSwap(1,1) must succeed)",
+		"C19": "contexts that end by a deadline already passed, by a deadline only, or were cancelled before the first call",
+	} {
+		m := MetaOf(prop)
+		m.Rule += " || round 11: " + text
+		metas[prop] = m
+	}
+}
